@@ -5,6 +5,7 @@ import (
 	"go/constant"
 	"go/token"
 	"go/types"
+	"math/big"
 	"strings"
 
 	"golang.org/x/tools/go/ssa"
@@ -859,13 +860,15 @@ func (fg *FnGen) convert(fr *Frame, x *ssa.Convert, st *State, reach *Term) *Ter
 		case types.Int, types.Int64:
 			// uint64 -> int64: identity when it fits, otherwise wraps
 			return Ite(Le(v, BigIntLit("9223372036854775807")), v, Sub(v, BigIntLit("18446744073709551616")))
-		case types.Int32:
-			if fb.Kind() == types.Int || fb.Kind() == types.Int64 {
-				c := fg.freshConst(fr.prefix+x.Name(), SInt)
-				fg.assumeValid(c, x.Type(), True)
-				fg.assume(Implies(And(Ge(v, IntLit(-2147483648)), Le(v, IntLit(2147483647))), Eq(c, v)))
-				return c
-			}
+		case types.Int32, types.Int16, types.Int8:
+			// narrowing to a signed type wraps exactly as Go does: take the value modulo 2^n, re-centre around zero
+			bits := map[types.BasicKind]uint{types.Int32: 32, types.Int16: 16, types.Int8: 8}[tb.Kind()]
+			pow := new(big.Int).Lsh(big.NewInt(1), bits)
+			half := new(big.Int).Rsh(pow, 1)
+			m := App("mod", SInt, v, BigIntLit(pow.String()))
+			c := fg.freshConst(fr.prefix+x.Name(), SInt)
+			fg.assume(Eq(c, Ite(Lt(m, BigIntLit(half.String())), m, Sub(m, BigIntLit(pow.String())))))
+			return c
 		}
 		c := fg.freshConst(fr.prefix+x.Name(), SInt)
 		fg.assumeValid(c, x.Type(), True)
